@@ -173,7 +173,7 @@ def shape_corpus():
             a(mk("btab_min_%02x" % bnd, [tok(bytes([bnd])), tok(bytes([highs[0]])), tok(bytes([highs[1]]))] + [tok(bytes([x])) for x in highs[2:]], utf8=False))
             a(mk("btab_cls_min_%02x" % bnd, [rx(b"(?-u)[\\x%02x-\\x%02x]+" % (bnd, highs[1])), tok(bytes([highs[0]])), tok(b"\xff\xff" if bnd < 0xfe else b"\x05")], utf8=False))
     # --- a self loop over ALL 256 bytes (only possible with utf8 = false): the state has no way out but the end of input
-    a(mk("full_loop", [rx(b"#(?s-u:.)*", greedy=True), tok(b"x"), tok(b"#")], utf8=False))
+    a(mk("full_loop", [rx(b"#(?s-u:.)*", greedy=True, prio=1), tok(b"x"), tok(b"#")], utf8=False))
     a(mk("full_loop_plus", [rx(rb"[\x00-\xff]+", greedy=True)], utf8=False))
     a(mk("full_loop_skip", [tok(b"x")], [skip(b"%(?s-u:.)*", greedy=True)], utf8=False))
     # --- overlaps at equal priority that a third, higher-priority pattern covers completely (declared first, between, last)
@@ -357,3 +357,13 @@ def class_defs(name, rs):
         # 4. self loop at the root (the loop is entered by its own first byte)
         out.append(mk("clsr_" + name, [rx(b"(?-u)" + cls + b"+")] + ([tok(bytes([outside[0]]) * 2)] if outside else []), utf8=False, tags=["class"]))
     return out
+
+
+# shape-corpus definitions that the derive rejects on the reference tree (ambiguous, nullable, start-dependent, not UTF-8,
+# ...); every other shape definition is written to be accepted.  A change of either is reported as SPEC-DRIFT by C01: the
+# property-level verdicts on acceptance come from Derive.tla / Amb.tla / RefUtf8.tla, this list only tells when the corpus
+# no longer exercises what it was written for.
+REJECTED_SHAPES = {'comment', 'la_notb', 'la_notb2', 'la_skip', 'luts', 'bytes_in_str', 'tie_masked_partly', 'amb_cls', 'amb_tok_rx', 'amb_three',
+                   'amb_icase', 'amb_look', 'amb_skip', 'nullable', 'nullable_tok', 'nullable_prio', 'nullable_prio_bytes', 'nullable_skip_prio',
+                   'nullable_sub', 'nullable_look', 'start_look', 'start_wordb', 'undef_sub', 'greedy_dot', 'non_utf8', 'non_utf8_cls', 'non_utf8_sub',
+                   'uni_wordb', 'non_utf8_skip', 'non_utf8_skip_rx', 'non_utf8_tok', 'non_utf8_icase', 'amb_none_prio'}
